@@ -43,11 +43,11 @@ use crate::{
     },
     seq_join::{SeqJoin, seq_join},
     test_fixture::{Runner, TestWorld},
-    verif::{c05_shuffle::Shared3, c07_circuits::VecShare, sim::*, world::*},
+    verif::{c05_shuffle::Shared3, c07_circuits::VecShare, faults::{self, *}, sim::*, world::*},
 };
 
 pub fn scenarios() -> Vec<&'static dyn Scenario> {
-    vec![&BaScenario, &ConvScenario, &AggScenario]
+    vec![&BaScenario { tampered: false }, &BaScenario { tampered: true }, &ConvScenario, &AggScenario]
 }
 
 fn mask(w: usize) -> u128 {
@@ -71,7 +71,9 @@ fn boundary(r: &mut Rng, w: usize) -> u128 {
 // c07_ba
 // ------------------------------------------------------------------------------------------------
 
-pub struct BaScenario;
+pub struct BaScenario {
+    pub tampered: bool,
+}
 
 /// per helper: (left, right) of the result of every record
 type BaRes = Result<Vec<(u128, u128)>, String>;
@@ -79,24 +81,27 @@ type BaRes = Result<Vec<(u128, u128)>, String>;
 struct BaRun {
     outcome: SimOutcome,
     res: BTreeMap<usize, BaRes>,
+    inv: BTreeMap<ChanKey, ChanStat>,
+    fired: Vec<Value>,
 }
 
 macro_rules! ba_run {
     ($name:ident, $ba:ty) => {
-        fn $name(p: &Value, spec: &SchedSpec, cs: &[bool], xs: &[u128], ys: &[u128]) -> BaRun {
+        fn $name(p: &Value, spec: &SchedSpec, cs: &[bool], xs: &[u128], ys: &[u128], site: Option<Site>) -> BaRun {
             let op = ps(p, "op").to_string();
             let records = pu(p, "records");
             let (malicious, batched, max_mults) = (pb(p, "malicious"), pb(p, "batched"), pu(p, "max_mults"));
             let knobs = &p["knobs"];
             let (active, read_size, world_seed) = (pu(knobs, "active"), pu(knobs, "read_size"), pu64(knobs, "world_seed"));
             let input_seed = pu64(p, "input_seed");
+            let (tamper, interceptor) = faults::tamper(site);
             let log: StdArc<StdMutex<BTreeMap<usize, BaRes>>> = StdArc::new(StdMutex::new(BTreeMap::new()));
             let log2 = StdArc::clone(&log);
             let (cs, xs, ys) = (cs.to_vec(), xs.to_vec(), ys.to_vec());
             let outcome = sim_async(spec, StdArc::new(AtomicBool::new(false)), move || {
-                let (log, op, cs, xs, ys) = (StdArc::clone(&log2), op.clone(), cs.clone(), xs.clone(), ys.clone());
+                let (log, op, cs, xs, ys, interceptor) = (StdArc::clone(&log2), op.clone(), cs.clone(), xs.clone(), ys.clone(), interceptor.clone());
                 async move {
-                    let world = TestWorld::new_with(&world_config(world_seed, active, read_size, None));
+                    let world = TestWorld::new_with(&world_config(world_seed, active, read_size, Some(interceptor)));
                     let mut sr = Rng::sub(input_seed, 99);
                     type In = (AdditiveShare<Boolean>, AdditiveShare<$ba>, AdditiveShare<$ba>);
                     let mut inputs: [Vec<In>; 3] = [Vec::new(), Vec::new(), Vec::new()];
@@ -150,7 +155,8 @@ macro_rules! ba_run {
                     }
                 }
             });
-            BaRun { outcome, res: log.lock().unwrap().clone() }
+            let t = tamper.log.lock().unwrap();
+            BaRun { outcome, res: log.lock().unwrap().clone(), inv: t.chans.clone(), fired: t.fired.clone() }
         }
     };
 }
@@ -164,11 +170,11 @@ ba_run!(ba_run64, BA64);
 
 impl Scenario for BaScenario {
     fn name(&self) -> &'static str {
-        "c07_ba"
+        if self.tampered { "c03_ba_tamper" } else { "c07_ba" }
     }
 
     fn generate(&self, seed: u64, tier: Tier) -> Value {
-        let mut r = Rng::sub(seed, 7_11);
+        let mut r = Rng::sub(seed, if self.tampered { 3_21 } else { 7_11 });
         let op = r.pick(&["select", "sat_sub"]);
         let w = r.pick(&[3usize, 5, 8, 16, 20, 32, 64]);
         let exhaustive = op == "sat_sub" && w <= 5 && r.chance(1, 2);
@@ -180,12 +186,17 @@ impl Scenario for BaScenario {
         } else {
             r.range(1, if tier == Tier::Quick { 16 } else { 48 })
         };
-        let malicious = r.chance(2, 3);
+        let malicious = self.tampered || r.chance(2, 3);
+        let records = if self.tampered { records.min(40) } else { records };
         let batched = r.chance(1, 2);
         let max_mults = if batched { r.pick(&[1usize, 2, 4, 8, 16, 64, 256]).min(records.next_power_of_two()) } else { records.next_power_of_two() };
         let est = 800 + (records * if op == "select" { 4 } else { w + 4 }) as u64 * 40;
         let mut p = json!({"op": op, "w": w, "records": records, "exhaustive": exhaustive, "malicious": malicious, "batched": batched,
             "max_mults": max_mults, "input_seed": r.next_u64() >> 12, "knobs": draw_knobs(&mut r)});
+        if self.tampered {
+            p["corrupt"] = json!(r.below(3));
+            p["site_seed"] = json!(r.next_u64() >> 12);
+        }
         p["sched"] = SchedSpec::draw(&mut r, est, 6_000_000);
         p
     }
@@ -198,6 +209,7 @@ impl Scenario for BaScenario {
         if !["select", "sat_sub"].contains(&op.as_str()) || ![3usize, 5, 8, 16, 20, 32, 64].contains(&w) || records == 0 || records > 4096
             || !max_mults.is_power_of_two() || (!batched && max_mults < records) || (exhaustive && w > 5)
             || !pu(knobs, "active").is_power_of_two() || pu(knobs, "active") < 2 || pu(knobs, "read_size") == 0
+            || (self.tampered && (!malicious || pu(p, "corrupt") > 2))
         {
             return RunRes::invalid("ba: plan");
         }
@@ -219,15 +231,16 @@ impl Scenario for BaScenario {
         let want = |k: usize| if op == "select" { if cs[k] { xs[k] } else { ys[k] } } else { xs[k].saturating_sub(ys[k]) };
         let spec = SchedSpec::from_json(&p["sched"], explicit);
         let shape = format!("ba {op} w{w} r{records} m{} b{}x{max_mults} e{}", u8::from(malicious), u8::from(batched), u8::from(exhaustive));
-        let run = match w {
-            3 => ba_run3(p, &spec, &cs, &xs, &ys),
-            5 => ba_run5(p, &spec, &cs, &xs, &ys),
-            8 => ba_run8(p, &spec, &cs, &xs, &ys),
-            16 => ba_run16(p, &spec, &cs, &xs, &ys),
-            20 => ba_run20(p, &spec, &cs, &xs, &ys),
-            32 => ba_run32(p, &spec, &cs, &xs, &ys),
-            _ => ba_run64(p, &spec, &cs, &xs, &ys),
+        let go = |site: Option<Site>| match w {
+            3 => ba_run3(p, &spec, &cs, &xs, &ys, site),
+            5 => ba_run5(p, &spec, &cs, &xs, &ys, site),
+            8 => ba_run8(p, &spec, &cs, &xs, &ys, site),
+            16 => ba_run16(p, &spec, &cs, &xs, &ys, site),
+            20 => ba_run20(p, &spec, &cs, &xs, &ys, site),
+            32 => ba_run32(p, &spec, &cs, &xs, &ys, site),
+            _ => ba_run64(p, &spec, &cs, &xs, &ys, site),
         };
+        let run = go(None);
         let o = run.outcome.clone();
         match o.class {
             "finished" => {}
@@ -255,10 +268,57 @@ impl Scenario for BaScenario {
                     shape, Some(o));
             }
         }
-        let mut res = RunRes::pass(shape, o.decisions > 0, Some(o));
-        res.probe(&format!("ba_{op}"), records as u64);
-        res.probe("ba_exhaustive", u64::from(exhaustive));
-        res.probe("ba_gate_spans_blocks", u64::from(malicious && records.min(max_mults) * w.next_power_of_two() > 256));
+        if !self.tampered {
+            let mut res = RunRes::pass(shape, o.decisions > 0, Some(o));
+            res.probe(&format!("ba_{op}"), records as u64);
+            res.probe("ba_exhaustive", u64::from(exhaustive));
+            res.probe("ba_gate_spans_blocks", u64::from(malicious && records.min(max_mults) * w.next_power_of_two() > 256));
+            return res;
+        }
+        // ---- C03: the same workload with one chunk of one helper's traffic rewritten ----
+        let corrupt = pu(p, "corrupt");
+        let mut sr = Rng::sub(pu64(p, "site_seed"), 0);
+        let site = match p.get("site") {
+            Some(s) if !s.is_null() => Some(Site::from_json(s)),
+            _ => draw_site(&run.inv, &|k: &ChanKey| k.sender_helper() == corrupt, &mut sr, &["flip:0", "flip:1", "flip:4", "flip:7", "add1", "setff", "set0"]),
+        };
+        let Some(site) = site else {
+            return RunRes::inconclusive("no_site", "no channel of the corrupt helper in the inventory".into(), shape, Some(o));
+        };
+        let bad = go(Some(site.clone()));
+        let o2 = bad.outcome.clone();
+        if bad.fired.is_empty() {
+            return RunRes::inconclusive("tamper_not_delivered", format!("site {} never reached", site.to_json()), shape, Some(o2));
+        }
+        let (a, b) = ((corrupt + 1) % 3, (corrupt + 2) % 3);
+        let mut res = match (bad.res.get(&a), bad.res.get(&b)) {
+            (Some(Ok(ra)), Some(Ok(rb))) => {
+                let wrong = (0..records).find(|k| ra[*k].1 != rb[*k].0 || (ra[*k].0 ^ ra[*k].1 ^ rb[*k].1) != want(*k));
+                match wrong {
+                    Some(k) => RunRes::violation("dzkp_tamper_accepted_result_changed",
+                        format!("helper {} altered {}; both honest helpers validated the batch but {op} record {k} now opens to {:#x} instead of {:#x}", corrupt + 1, site.to_json(), ra[k].0 ^ ra[k].1 ^ rb[k].1, want(k)),
+                        shape, Some(o2.clone())),
+                    None if !site.chan.gate.contains("/validate") => RunRes::violation("dzkp_mult_tamper_accepted",
+                        format!("helper {} altered a multiplication message of {op} {} and both honest helpers validated the batch", corrupt + 1, site.to_json()),
+                        shape, Some(o2.clone())),
+                    None => {
+                        let mut r = RunRes::pass(shape, true, Some(o2.clone()));
+                        r.probe("proof_msg_tamper_accepted_result_intact", 1);
+                        r
+                    }
+                }
+            }
+            _ => {
+                let mut r = RunRes::pass(shape, true, Some(o2.clone()));
+                r.probe("tamper_rejected_or_aborted", 1);
+                r
+            }
+        };
+        res.fault("F1_tamper_delivered", 1);
+        res.probe(&format!("outcome_{}", o2.class), 1);
+        res.probe(&format!("ba_tamper_{op}"), 1);
+        res.probe(if site.chan.gate.contains("/validate") { "site_proof_message" } else { "site_array_multiplication" }, 1);
+        res.extra = json!({"site": site.to_json(), "fired": bad.fired, "inventory_channels": run.inv.len()});
         res
     }
 }
